@@ -164,6 +164,17 @@ func c15EmptySubs(l *poly.Location, r *rand.Rand) {
 	}
 }
 
+// c15Key draws a key of a qualifier map or of Meta.Other: free text as before, or - one time in six - a word that
+// also occurs as a field name of the JSON form or of the Go structs (a value that is also a key)
+func c15Key(r *rand.Rand, j int) string {
+	if r.Intn(6) == 0 {
+		return []string{"pubMed", "pub_med", "moleculeType", "molecule_type", "sequenceLength", "sequence_length", "modificationDate", "subLocations", "sub_locations",
+			"sequence_location", "SequenceLocation", "start", "end", "complement", "join", "five_prime_partial", "attributes", "Attributes", "features", "meta", "sequence",
+			"name", "Name", "type", "locus", "other", "references", "gbk_location_string", "parent_sequence", "description", "hash", "hash_function", "circular", "linear"}[r.Intn(34)]
+	}
+	return uniText(r, 1) + fmt.Sprint(j)
+}
+
 func randAnnotated(r *rand.Rand) poly.Sequence {
 	var s poly.Sequence
 	L := 1 + r.Intn(400)
@@ -200,7 +211,7 @@ func randAnnotated(r *rand.Rand) poly.Sequence {
 	default:
 		m.Other = map[string]string{}
 		for i := 1 + r.Intn(4); i > 0; i-- {
-			m.Other[uniText(r, 1)+fmt.Sprint(i)] = uniText(r, 20)
+			m.Other[c15Key(r, i)] = uniText(r, 20)
 		}
 	}
 	s.Description, s.SequenceHash, s.SequenceHashFunction = uniText(r, 6), uniText(r, 1), uniText(r, 1)
@@ -238,7 +249,7 @@ func randAnnotated(r *rand.Rand) poly.Sequence {
 		default:
 			f.Attributes = map[string]string{}
 			for j := 1 + r.Intn(5); j > 0; j-- {
-				f.Attributes[uniText(r, 1)+fmt.Sprint(j)] = uniText(r, 8)
+				f.Attributes[c15Key(r, j)] = uniText(r, 8)
 			}
 		}
 		s.AddFeature(&f)
